@@ -530,6 +530,10 @@ func init() {
 								others = 0
 							}
 							cs = append(cs, &c17Case{Cmd: cmd, Len: l, Pos: pos, NoFinal: nf, Others: others})
+							if others != 0 && pos == "last" && nf && l >= 65535 && l <= 70000 {
+								// the long line is all there is, and it is not terminated: the file is as long as its only line
+								cs = append(cs, &c17Case{Cmd: cmd, Len: l, Pos: pos, NoFinal: nf, Others: 0})
+							}
 						}
 					}
 				}
